@@ -38,6 +38,8 @@ Space    == {9, 10, 11, 12, 13, 32}          \* isspace()
 Graph    == 33..126                          \* isgraph()
 NotSpace == (0..255) \ Space
 Quotes   == {39, 34}
+High     == 128..255                         \* bytes a signed char holds as negative values
+ByteOf(t) == t % 256                         \* an int token stands for this byte (memchr() semantics)
 White    == <<9, 32, 10, 13, 11>>            \* "\t \n\r\v" of message_argv.c
 Fill     == 238                              \* initial content of a copy destination
 
@@ -74,8 +76,8 @@ RECURSIVE LastIn(_, _, _)        \* largest index <= i whose byte is in set, or 
 LastIn(s, i, set) ==
   IF i = 0 THEN 0 ELSE IF s[i] \in set THEN i ELSE LastIn(s, i - 1, set)
 
-MemchrF(s, b)    == Pos1(FirstIn(s, 1, {b}))
-MemrchrF(s, b)   == Pos1(LastIn(s, Len(s), {b}))
+MemchrF(s, t)    == Pos1(FirstIn(s, 1, {ByteOf(t)}))          \* token: any int, taken as a byte
+MemrchrF(s, t)   == Pos1(LastIn(s, Len(s), {ByteOf(t)}))
 MemfcnF(s, set)  == Pos1(FirstIn(s, 1, set))
 MemrfcnF(s, set) == Pos1(LastIn(s, Len(s), set))
 MemstrF(s, m)    == IF m = <<>> THEN Ok(0) ELSE Pos1(FirstIn(s, 1, Range(m)))
@@ -118,7 +120,7 @@ MemcpyF(n, s, d) ==
 
 (* mpt_message_argv: length of the next argument; with a separator other   *)
 (* than 0 leading white space is consumed first.                           *)
-PosOrLen(s, b) == LET i == FirstIn(s, 1, {b}) IN IF i = 0 THEN Len(s) ELSE i - 1
+PosOrLen(s, t) == LET i == FirstIn(s, 1, {ByteOf(t)}) IN IF i = 0 THEN Len(s) ELSE i - 1
 ArgvF(s, sep) ==
   IF s = <<>> THEN [ret |-> "missing", val |-> <<>>, rest |-> s]
   ELSE IF sep = 0 THEN [ret |-> "ok", val |-> <<PosOrLen(s, 0)>>, rest |-> s]
@@ -234,8 +236,9 @@ MemcpyD(n, src, dst) ==
 
 \* position of the first byte b in the current fragment, else in the
 \* continuation (plus the current length), else the total length
-NextCharD(c, ct, b) ==
-  LET i == FirstIn(c, 1, {b}) IN
+NextCharD(c, ct, t) ==
+  LET b == ByteOf(t)
+      i == FirstIn(c, 1, {b}) IN
   IF i # 0 THEN i - 1
   ELSE LET j == FirstFr(ct, 1, {b}) IN
        IF j # 0 THEN Len(c) + j - 1 ELSE Len(c) + LenSum(ct)
@@ -353,11 +356,11 @@ ArrMsg(sep) ==
   /\ obs' = [a |-> "arrmsg", arg |-> [sep |-> sep], exp |-> Exp(e, e.out, flat)]
   /\ des' = Exp(d, d.out, Flat(Frags))
 
-Memchr(b)  == Ask("memchr",  [b |-> b], MemchrF(flat, b),  Pos1(FirstFr(Frags, 1, {b})))
-Memrchr(b) == Ask("memrchr", [b |-> b], MemrchrF(flat, b), Pos1(LastFr(Frags, Len(Frags), {b})))
+Memchr(b)  == Ask("memchr",  [b |-> b], MemchrF(flat, b),  Pos1(FirstFr(Frags, 1, {ByteOf(b)})))
+Memrchr(b) == Ask("memrchr", [b |-> b], MemrchrF(flat, b), Pos1(LastFr(Frags, Len(Frags), {ByteOf(b)})))
 
 ClassSet(cls) == CASE cls = "space" -> Space [] cls = "notspace" -> NotSpace
-                   [] cls = "quote" -> Quotes [] cls = "zero" -> {0}
+                   [] cls = "quote" -> Quotes [] cls = "zero" -> {0} [] cls = "high" -> High
 Memfcn(cls)  == Ask("memfcn",  [cls |-> cls], MemfcnF(flat, ClassSet(cls)),
                     Pos1(FirstFr(Frags, 1, ClassSet(cls))))
 Memrfcn(cls) == Ask("memrfcn", [cls |-> cls], MemrfcnF(flat, ClassSet(cls)),
@@ -391,13 +394,20 @@ MsgAppend(pre) ==
 ---------------------------------------------------------------------------
 (* bounded exploration *)
 Strings(n) == UNION {[1..k -> Alphabet] : k \in 0..n}
-Seps     == {0, 1, 32, 44} \cup (Alphabet \cap Graph)
-Needles  == Alphabet \cup {1}
-Classes  == {"space", "notspace", "quote", "zero"}
-MatchSets == {<<>>, <<32, 34>>, <<97, 0>>, <<1>>}
+\* int tokens the way C code passes them: a byte >= 0x80 taken from (signed) char data is a
+\* negative int; "wide" in Ops adds tokens outside 0..255 for every byte of the alphabet
+HighA    == Alphabet \cap High
+Signed   == {b - 256 : b \in HighA}
+Wide     == IF "wide" \in Ops THEN {b + 256 : b \in Alphabet} \cup {b - 512 : b \in Alphabet} ELSE {}
+Seps     == {0, 1, 32, 44} \cup (Alphabet \cap Graph) \cup HighA \cup Signed
+Needles  == Alphabet \cup {1} \cup Signed \cup Wide
+Classes  == {"space", "notspace", "quote", "zero"} \cup (IF HighA # {} THEN {"high"} ELSE {})
+MatchSets == {<<>>, <<32, 34>>, <<97, 0>>, <<1>>} \cup (IF HighA # {} THEN {<<255, 128>>, <<200>>} ELSE {})
 TokArgs  == {<<0, <<>> >>, <<1, White>>, <<1, <<97, 44>> >>, <<1, <<>> >>}
-ComArgs  == {<<>>} \cup (IF 35 \in Alphabet THEN {<<35>>} ELSE {})
+              \cup (IF HighA # {} THEN {<<1, <<128, 44>> >>} ELSE {})
+ComArgs  == {<<>>} \cup (IF 35 \in Alphabet THEN {<<35>>} ELSE {}) \cup (IF 255 \in Alphabet THEN {<<255>>} ELSE {})
 EscArgs  == {<<>>} \cup (IF Alphabet \cap Quotes # {} THEN {<<39, 34>>} ELSE {})
+              \cup (IF 128 \in Alphabet THEN {<<128>>} ELSE {})
 DstCuts  == UNION {Comps(n, k) : n \in 0..MaxDst, k \in 1..MaxDstFrag}
 
 Init ==
@@ -446,4 +456,9 @@ Normalised == [][obs'.a = "read" => (cur' # <<>> \/ cont' = <<>>)]_vars
 
 \* no way of cutting changes an answer: checked on every transition
 DesignAgrees == [][des' = obs'.exp]_vars
+
+\* first and last occurrence coincide where the byte occurs exactly once, whatever int stands for it
+Occur(s, b) == {i \in 1..Len(s) : s[i] = b}
+OnceAgrees == [][obs'.a \in {"memchr", "memrchr"} /\ Cardinality(Occur(flat, ByteOf(obs'.arg.b))) = 1
+                  => obs'.exp.val = <<(CHOOSE i \in Occur(flat, ByteOf(obs'.arg.b)) : TRUE) - 1>>]_vars
 =============================================================================
